@@ -15,11 +15,15 @@ prop('C01',
                'functions, discharged by z3 (cvc5 fallback); QBASIC semantics as independent spec functions',
      explanation='instruction contracts of the QVM and expression-level contracts (static result types, gen_binary_op/gen_unary_op '
                  'composed with the machine) against QBASIC operator semantics for all operand values and all operand type pairs; '
-                 'PRINT/INPUT/READ device protocols; layout and array addressing',
+                 'PRINT/INPUT/READ device protocols; layout and array addressing; control templates (WHILE, DO/LOOP, IF, IF block, FOR, '
+                 'SELECT CASE dispatch) and the procedure-call / GOSUB protocol executed on the real machine code with placeholder bodies; '
+                 'lvalue read/write/reference, assignment and argument passing against the layout address; string instructions; '
+                 'device statements (COLOR ... KILL): one device interaction with converted operands in order',
      assumptions=['whole-program induction over GOTO/GOSUB/procedure control flow is not mechanised: the lemmas are per node / per instruction',
                   'child expressions satisfy their own generator contract (push one cell of their static type)'],
-     not_covered=['pyparsing grammar', 'outer induction over whole programs', 'float ** (uninterpreted)', 'control-flow templates '
-                  '(FOR/WHILE/DO/SELECT/IF) and procedure calls', 'builtin functions other than those listed in the evidence'])
+     not_covered=['pyparsing grammar', 'outer induction over whole programs', 'float ** (uninterpreted)', 'values computed by most builtin '
+                  'functions (their result types are under contract)', 'DIM / array initialisation generators', 'recursion depth and the composition of '
+                  'the call protocol over arbitrary call graphs'])
 prop('C02', technique='contract-based deductive verification: two-implementation equivalence (constant folder vs emitted code run on the real '
                       'machine code; peephole windows before vs after optimize()) for all operand values',
      explanation='Expr.fold / BinaryOp.eval / UnaryOp.eval must compute what the unoptimised code computes at run time (value and type), must not '
@@ -32,7 +36,7 @@ prop('C03', technique='contract-based deductive verification of typing contracts
      explanation='every instruction/expression contract: typed operands in, a cell of the static result type out, or a language-level trap; '
                  'device operations leave exactly the cells the generators expect; frame operands cover generator temporaries',
      assumptions=['typed operand stacks are established inductively by the generator lemmas'],
-     not_covered=['arbitrary GOTO into templates', 'GOSUB return discipline', 'statement generators other than PRINT/INPUT/RESTORE'])
+     not_covered=['arbitrary GOTO into templates', 'GOSUB/RETURN pairing across arbitrary control flow (the single pair is under contract)', 'DIM generators'])
 prop('C07', technique='contract-based deductive verification: safety VCs (only Trapped/ZeroDivisionError escape an instruction)',
      explanation='safety halves of the instruction contracts and tick/_trap contracts',
      assumptions=['host signal delivery between bytecodes is an atomic flag write'], not_covered=['float **'])
@@ -49,7 +53,7 @@ prop('C15', technique='contract-based deductive verification: loop refinement of
                  'invariant); grouping of DATA by labels, RESTORE part index and the READ cursor proved against the placement spec',
      assumptions=['DATA text is printable ASCII + TAB (one source line)',
                   'pyparsing hands the text after DATA to DataStmt unchanged'],
-     not_covered=['numeric text conversion of READ (int()/float() vs QB numerals) is under C16', 'event sequences longer than 4'])
+     not_covered=['which texts count as numbers is CPython int()/float() (assumed contract), not the QBASIC numeral syntax', 'event sequences longer than 4'])
 prop('C17', technique='contract-based deductive verification: generator lemma (real gen_print_stmt run on real/stub child nodes, '
                       'children replaced by their contracts) composed with the device code, string VCs in z3',
      explanation='for every item-kind sequence up to length 3 (all values symbolic) the emitted code run on the real device code prints '
@@ -123,14 +127,13 @@ prop('C05', technique='contract-based deductive verification of the checking fun
      explanation='each process_*_pre raises CompileError with the rule\'s category iff the shape violates the rule and the diagnostic carries the '
                  'offending node\'s position; operator type-mismatch rejection over every operator and operand type pair',
      assumptions=['every node is visited by every pass (tree traversal / surgery is not covered)'],
-     not_covered=['rule violations detected by the grammar', 'argument matching of calls', 'conditions of IF/ELSEIF/DO/LOOP have no checking function '
-                  '(known finding)', 'block matching in parse_string'])
+     not_covered=['rule violations detected by the grammar', 'argument matching of calls', 'block matching in parse_string beyond the enumerated shapes'])
 prop('C06', technique='contract-based deductive verification: safety obligations (only SyntaxError/CompileError may escape) on the pass functions, '
                       'folder, optimiser and assembler contracts; generators on the shapes the passes accept',
      explanation='no checking function, folder, peephole rule or assembler path raises anything but a compile error for the enumerated shapes and all '
                  'operand values; what the passes accept the listed generators can generate',
      assumptions=['token shapes handed to parse actions are those of the grammar rules (pyparsing)'],
-     not_covered=['the pyparsing grammar and its parse actions', 'termination', 'generators not under contract'])
+     not_covered=['the pyparsing grammar and its parse actions', 'termination', 'generators not under contract (DIM, CONST, static array initialisation)', 'record assignment (known finding)'])
 prop('C20', level='other', technique='contract-style frame/effect obligations (reads/assigns analysis over the AST of the real modules), an order-independence '
                                      'obligation for the one set iteration, plus a bounded two-run stand-in',
      explanation='functional dependence of the output on (source, options): no function on the compile/load/run path reads an ambient source; '
